@@ -7,7 +7,7 @@ from ..astutil import (src, flat_guards, calls_in, call_name, kwarg, const_value
                        iter_own_nodes, ancestors, is_within)
 from ..cfg import cfg_of, Prov
 from .. import variants as V
-from .c03 import frame_obligations, ALLOWED_SELF
+from .c03 import frame_obligations, ALLOWED_SELF, r9_inferred_types_are_own
 
 PROPERTY = "C04"
 TITLE = "Type overwriting injects exactly one real type error (the fail oracle)"
@@ -334,6 +334,8 @@ def rules():
         RuleSpec("C04-R5", "message arguments", 1, r5_message),
         RuleSpec("C04-R6", "candidate nodes", 3, r6_candidates),
         RuleSpec("C04-R7", "oracle wiring", 4, r7_oracle_wiring),
+        RuleSpec("C04-R8", "inferred type nodes of the dependency analysis carry the expression's own type", 12,
+                 lambda repo: r9_inferred_types_are_own(repo, rule="C04-R8")),
     ]
 
 
